@@ -22,6 +22,10 @@ Extracted (None = pattern not recognised -> `extraction_failed`):
                           (`Connection::peer_closed()` called in `process_connections`) ?
   * defer_batch           does `process_connection` stop executing the frames of a batch once the connection is
                           Blocked and keep the rest (`deferred_frames`) ?
+  * serve_after_script    does `process_normal_command` serve the blocked keys of the database after EVAL / RENAME
+                          (`blocked_keys(db)` + `serve_key`) ?  No Lean switch (outside the model); for lib/c13.py.
+  * exec_atomic           do the LPUSH / RPUSH arms skip the notification when `conn_id == 0` (run by EXEC), is the
+                          drain skipped too, and does `handle_exec` call `serve_key` for the pushed keys afterwards ?
 """
 import re
 
@@ -42,7 +46,7 @@ def _arm(text, name):
 
 def facts(src, strip_comments, fn_body):
     out = {"wake_batch": None, "notify_per_element": None, "wake_at_push": None, "unregister_all": None, "refuse_in_tx": None, "dedup_keys": None,
-           "drain_all": None, "notice_blocked_hangup": None, "defer_batch": None}
+           "drain_all": None, "notice_blocked_hangup": None, "defer_batch": None, "exec_atomic": None, "serve_after_script": None}
     bl = strip_comments(src("network/blocking.rs"))
     pw = fn_body(bl, "process_wakeups")
     if pw is not None:
@@ -73,7 +77,14 @@ def facts(src, strip_comments, fn_body):
         out["notice_blocked_hangup"] = bool(re.search(r"\.\s*peer_closed\s*\(\s*\)", pcs))
     pc = fn_body(sv, "process_connection")
     if pc is not None and "frames_to_process" in pc:
-        out["defer_batch"] = bool(re.search(r"deferred_frames", pc) and re.search(r"ConnectionState::Blocked", pc))
+        out["defer_batch"] = bool(re.search(r"deferred_frames", pc) and re.search(r"is_connection_blocked\s*\(", pc))
+    he = fn_body(sv, "handle_exec")
+    if he is not None and "process_command_parts" in he and out["notify_per_element"] is not None:
+        arms_skip = all((_arm(pnc, n) or "").find("conn_id") >= 0 and re.search(r"if\s+conn_id\s*==\s*0", _arm(pnc, n) or "") for n in ("LPUSH", "RPUSH"))
+        out["exec_atomic"] = bool(arms_skip and re.search(r"self\s*\.\s*serve_key\s*\(", he))
+    if pnc:
+        # (no model switch: scripts and RENAME are outside the Lean machine; read by lib/c13.py only)
+        out["serve_after_script"] = bool(re.search(r"blocked_keys\s*\(", pnc) and re.search(r"serve_key\s*\(", pnc))
     wc = fn_body(sv, "wake_client")
     if wc is not None and "send_frame" in wc and ("lpop" in wc and "rpop" in wc):
         out["unregister_all"] = bool(re.search(r"unregister_client\s*\(", wc))
@@ -114,5 +125,6 @@ def generate(src, strip_comments, fn_body, header):
     item("drainAll", "Bool", f["drain_all"], "process_normal_command drains the wake queue under `while has_pending_wakeups()`", "wake-up drain at the end of process_normal_command not recognised")
     item("noticeBlockedHangup", "Bool", f["notice_blocked_hangup"], "process_connections probes blocked connections with Connection::peer_closed()", "process_connections not recognised")
     item("deferBatchWhenBlocked", "Bool", f["defer_batch"], "process_connection keeps the frames behind a blocking pop that blocked (deferred_frames)", "process_connection not recognised")
+    item("execAtomic", "Bool", f["exec_atomic"], "queued pushes do not notify (conn_id == 0); handle_exec serves the pushed keys afterwards (serve_key)", "handle_exec not recognised")
     L += ["", "end Ferrous.Gen.Blocking", ""]
     return "\n".join(L)
